@@ -144,8 +144,9 @@ type Policy struct {
 	HoldWatch      int  // permille: chance per step that watch frames are not deliverable this step
 	APIFault       int  // permille per served in-sync request
 	APIFaults      []string
-	HookFaultBurst bool // a hook fault in a co-release step hits every hook call released in that step
-	HookFault      int  // permille per answered hook call
+	HoldHook       func(h *HookRec) bool // hook calls that are not answered for the time being
+	HookFaultBurst bool                  // a hook fault in a co-release step hits every hook call released in that step
+	HookFault      int                   // permille per answered hook call
 	HookFaults     []string
 	WatchBreak     int  // permille per step: break one open watch stream
 	Crash          int  // permille per step
@@ -1137,6 +1138,9 @@ func (w *World) StepOnce(p *Policy) bool {
 		acts = append(acts, action{kind: "serve", req: r})
 	}
 	for _, h := range w.PendingHooks() {
+		if p.HoldHook != nil && p.HoldHook(h) {
+			continue // the webhook is taking its time over this one
+		}
 		acts = append(acts, action{kind: "hook", hook: h})
 	}
 	if len(acts) == 0 || (p.AdvanceProb > 0 && t.Chance(p.AdvanceProb, "advance?")) {
